@@ -24,7 +24,7 @@ RULE = ('the real CRTTransferManager Python layer against a stub awscrt (the nat
         'still pending and a subscriber on_done that is slow (raising subscribers are outside the statement and not generated).  Oracle: exactly one permit release per submitted transfer (attributed '
         'through the completing/submitting thread), semaphore back at its initial value at quiescence and never above it, release '
         'only after every subscriber on_done returned, on_queued/on_done exactly once, path downloads renamed on success and temp '
-        'removed otherwise, result() outcome matches, exit returns only after every on_done chain finished; non-trivial = at least one '
+        'removed otherwise, result() outcome matches, exit returns only after every on_done chain finished; plus one-preemption line windows over the glue in crt.py and path downloads whose destination name is an existing directory (request succeeds, rename fails); non-trivial = at least one '
         'non-ok outcome or more transfers than permits; distinct = distinct specs')
 ASSUMPTIONS = ['whether the real awscrt honours the callback contract is outside this repository',
                'CRTTransferManager(osutil=...) is not used: its constructor only sets _osutil when osutil is None (observed, not part of C20)']
